@@ -158,7 +158,7 @@ class Tie:
                               ("PropsGen/C10postInstr.v", ["PropsGen/C10postList.v"]),
                               ("PropsGen/C10post2.v", ["PropsGen/C10post.v", "PropsGen/C10postList.v", "PropsGen/C10postInstr.v"])]
         else:
-            self.props_dag = [("PropsGen/C09postFile.v", [])]
+            self.props_dag = [("PropsGen/C09postFile.v", []), ("PropsGen/C09post.v", []), ("PropsGen/C09postLine.v", ["PropsGen/C09post.v"])]
         self.props_chain = [f for f, _ in self.props_dag]
         self.props = " + ".join(os.path.basename(f) for f in self.props_chain) if self.props_chain else "PropsGen/-"
         self._thread = None
@@ -573,6 +573,235 @@ def a64_tree_stream(tie, p, cases, per=200):
     return fails
 
 
+# ------------------------------------------------------------------ x86: grammar result / meaning / embedding of written operands
+def _numeral(text):
+    neg = text.startswith("-")
+    t = text[1:] if neg else text
+    hx = t.startswith("0x")
+    return "(mknum %s %s %s)" % ("true" if neg else "false", "true" if hx else "false", coq_str(t[2:] if hx else t))
+
+
+def xwop_term(g, first, lo, o):
+    """Model/PostX86.v xwop term of a generated operand (harness/c09_gen tuples + its layout); None = a form outside PostX86.v"""
+    k = o[0]
+    if k == "reg":
+        return "(XReg %s None)" % coq_str(o[1])
+    if k == "regk":
+        return "(XReg %s (Some (%s, %s)))" % (coq_str(o[1]), coq_str(o[2]), "true" if o[3] else "false")
+    if k == "imm":
+        return "(XImm %s)" % _numeral(g.render_int(lo, o[1]))
+    if k == "id":
+        return "(XIdent %s %s)" % ("true" if (lo["dollar"] or not first) else "false", coq_str(o[1]))
+    if k in ("mem", "memk"):
+        disp, base, index, scale = o[1], o[2], o[3], o[4]
+        if disp is not None and disp[0] not in ("int", "id"):
+            return None
+        if base is None and index is None:
+            if k == "memk" or disp is None or disp[0] != "int":
+                return None
+            return "(XAbs %s)" % _numeral(g.render_int(lo, disp[1]))
+        d = "XDNone" if disp is None else ("(XDInt %s)" % _numeral(g.render_int(lo, disp[1])) if disp[0] == "int" else "(XDId %s)" % coq_str(disp[1]))
+        opt = lambda x: "None" if x is None else "(Some %s)" % coq_str(x)   # noqa
+        sc = "None" if (index is None or (scale == 1 and lo["omit1"])) else "(Some %s)" % _numeral(str(scale))
+        return "(XMem %s %s %s %s %s)" % (d, opt(base), opt(index), sc, opt(o[5]) if k == "memk" else "None")
+    return None
+
+
+def x86_operand_stream(tie, p, wf, per=250):
+    """x86 stage (a)+(c) on the written operands of the generated lines (wf: (layout, ast, line) of checks/c09.py):
+    grx_op = real pyparsing result, den_xwop = the code's view of the generated AST, the theorem's equation evaluated, and its
+    right-hand side = the object the Python process_operand returns on the real dictionary (every instance attribute)"""
+    import c09_gen as g
+    ctx = tie.ctx
+    if not tie.ok:
+        return
+    cases = []
+    skipped = 0
+    for lay, ast, line in wf:
+        try:
+            coq_str(line)
+            d = p.instruction_parser.parseString(line, parseAll=True).asDict()
+        except Exception:  # noqa
+            continue
+        for i, o in enumerate(ast[1]):
+            try:
+                t = xwop_term(g, i == 0, lay["ops"][i][0], o)
+            except Undumpable:
+                t = None
+            key = "operand%d" % (i + 1)
+            if t is None or key not in d:
+                skipped += 1
+                continue
+            try:
+                real = "(Ok %s)" % dump(d[key])
+                d2 = p.instruction_parser.parseString(line, parseAll=True).asDict()
+                py = res_term(lambda: p.process_operand(d2[key]))
+                cases.append((t, g.cq_operand(o), real, py or "(Raise PyDyn.Unmodelled)", line))
+            except Undumpable:
+                skipped += 1
+    shards = []
+    for k, i in enumerate(range(0, len(cases), per)):
+        rows = ";\n".join("  (%s, %s, %s, %s)" % c[:4] for c in cases[i:i + per])
+        shards.append(("post_x86_ops_%03d" % k, PRELUDE % tie.gen_name + """From OV Require Import Model.LexA64 Model.ParseA64 Model.SyntaxA64 Model.PostA64 Model.PostX86.
+From OV Require Model.ParseX86.
+Import ParseX86.
+Definition c (n : nat) : string := ch n.
+Definition cases : list (xwop * ParseX86.operand * res pyval * res pyval) := [
+%s ].
+Definition noorc (e : string) (a : pyval) : res pyval := Raise PyDyn.Unmodelled.
+Definition g_ok (q : xwop * ParseX86.operand * res pyval * res pyval) : bool := match q with (x, _, _, _) => xwop_okb x end.
+Definition g_gr (q : xwop * ParseX86.operand * res pyval * res pyval) : bool :=
+  match q with (x, _, Ok d, _) => map_same (grx_op x) d | _ => false end.
+Definition g_den (q : xwop * ParseX86.operand * res pyval * res pyval) : bool :=
+  match q with (x, a, _, _) => String.eqb (ParseX86.show_op (den_xwop x)) (ParseX86.show_op (ParseX86.code_view a)) end.
+Definition g_thm (q : xwop * ParseX86.operand * res pyval * res pyval) : bool :=
+  match q with (x, _, _, _) => same_res (x_process_operand noorc (grx_op x)) (Ok (embx_op (den_xwop x))) end.
+Definition g_py (q : xwop * ParseX86.operand * res pyval * res pyval) : bool :=
+  match q with (x, _, _, r) => same_res (Ok (embx_op (den_xwop x))) r end.
+Definition failing (g : _ -> bool) : string :=
+  idxs (fun i => match nth_error cases i with Some q => negb (g q) | None => true end) (length cases).
+Eval vm_compute in (failing g_ok ++ "|" ++ failing g_gr ++ "|" ++ failing g_den ++ "|" ++ failing g_thm ++ "|" ++ failing g_py).
+""" % rows))
+    res = ctx.coq_eval_many(shards, timeout=900)
+    names = ["operand is in the language xwop_okb", "grammar stage: grx_op = REAL pyparsing result (dictionaries as finite maps)",
+             "den_xwop = the code's view (code_view) of the generated hand-model AST",
+             "theorem instance: translated process_operand (grx_op) = embx_op (den_xwop)",
+             "embx_op (den_xwop) = the object the Python process_operand returns on the real dictionary (every instance attribute)"]
+    fails = {n: [] for n in names}
+    broken = []
+    for k, (ok, out) in enumerate(res):
+        if not ok or not out:
+            broken.append((out or ["no output"])[0][-1500:])
+            continue
+        for nm, part in zip(names, out[0].split("|")):
+            fails[nm] += [cases[k * per + int(x)] for x in part.split(",") if x]
+    ctx.obligation("x86 operand shards evaluate (%d shards)" % len(shards), "correspondence", not broken, "\n".join(broken[:2]))
+    for nm in names:
+        f = fails[nm]
+        ctx.obligation("x86 post-processing, %d written operands (%d of other forms skipped): %s" % (len(cases), skipped, nm), "correspondence",
+                       not f, "" if not f else "%d cases, first: line=%r operand=%s" % (len(f), f[0][4], f[0][0]))
+    ctx.coverage.setdefault("post_translator", {})["x86 operands"] = {"operands": len(cases), "skipped_other_forms": skipped,
+                                                                       **{n[:24]: len(f) for n, f in fails.items()}}
+    return fails
+
+
+def xline_case(g, p, line, wfmap):
+    """Model/PostX86.v xline term of a line + what the grammar elements parse_line consults answer (real pyparsing)"""
+    def tryel(el):
+        try:
+            return getattr(p, el).parseString(line, parseAll=True).asDict()
+        except Exception as e:  # noqa
+            if type(e).__name__ == "ParseException":
+                return None
+            raise Undumpable("grammar raised %s" % type(e).__name__)
+    words = lambda ws: "[%s]" % "; ".join(coq_str(w) for w in ws)   # noqa
+    ocom = lambda d: "None" if "comment" not in d else "(Some %s)" % words(d["comment"])   # noqa
+    PE = "(Raise ParseException)"
+    c = tryel("comment")
+    if c is not None:
+        return "(XLComment %s)" % words(c["comment"]), [("comment", "(Ok %s)" % dump(c))]
+    lb = tryel("label")
+    if lb is not None:
+        d = lb["label"]
+        if set(d) - {"identifier", "name", "comment"}:
+            return None
+        return "(XLLabel %s %s)" % (coq_str(d["name"][0]["name"]), ocom(d)), [("comment", PE), ("label", "(Ok %s)" % dump(lb))]
+    dr = tryel("directive")
+    if dr is not None:
+        d = dr["directive"]
+        if "parameters" not in d:
+            return None
+        more = "; ".join("(%s, %s)" % (coq_str(k), dump(v)) for k, v in d.items() if k not in ("name", "parameters", "comment"))
+        return ("(XLDirective %s %s [%s] %s)" % (coq_str(d["name"]), dump(d["parameters"]), more, ocom(d)),
+                [("comment", PE), ("label", PE), ("directive", "(Ok %s)" % dump(dr))])
+    ins = tryel("instruction_parser")
+    if ins is None or line not in wfmap:
+        return None
+    lay, ast = wfmap[line]
+    if len(ast[1]) > 4:
+        return None
+    ops = [xwop_term(g, i == 0, lay["ops"][i][0], o) for i, o in enumerate(ast[1])]
+    if any(o is None for o in ops):
+        return None
+    return ("(XLInstr %s [%s] %s)" % (coq_str(ins["mnemonic"]), "; ".join(ops), ocom(ins)),
+            [("comment", PE), ("label", PE), ("directive", PE), ("instruction_parser", "(Ok %s)" % dump(ins))])
+
+
+def x86_line_stream(tie, p, lines, wf, per=150):
+    """x86 stages (a)+(c) on whole lines: grx_stage = what real pyparsing answers for every element parse_line consults, den_xline =
+    the hand model's parse_line (where it is not Unmodelled), the theorem's equation, and embx_form = the Python parse_line's object"""
+    import c09_gen as g
+    ctx = tie.ctx
+    if not tie.ok:
+        return
+    wfmap = {line: (lay, ast) for lay, ast, line in wf}
+    cases, skipped = [], 0
+    for line in lines:
+        try:
+            coq_str(line)
+            r = xline_case(g, p, line, wfmap)
+            if r is None:
+                skipped += 1
+                continue
+            py = res_term(lambda: p.parse_line(line, 3))
+            if py is None:
+                skipped += 1
+                continue
+            cases.append((r[0], coq_str(line), "[%s]" % "; ".join("(%s, %s)" % (coq_str(e), t) for e, t in r[1]), py, line))
+        except Undumpable:
+            skipped += 1
+    shards = []
+    for k, i in enumerate(range(0, len(cases), per)):
+        rows = ";\n".join("  (%s, %s, %s, %s)" % c[:4] for c in cases[i:i + per])
+        shards.append(("post_x86_lines_%03d" % k, PRELUDE % tie.gen_name + """From OV Require Import Model.LexA64 Model.ParseA64 Model.SyntaxA64 Model.PostA64 Model.PostX86.
+From OV Require Model.ParseX86.
+Definition cases : list (xline * string * list (string * res pyval) * res pyval) := [
+%s ].
+Definition stage_same (r e : res pyval) : bool :=
+  match r, e with Ok a, Ok b => map_same a b | Raise x, Raise y => exn_eqb x y | _, _ => false end.
+Definition g_ok (q : xline * string * list (string * res pyval) * res pyval) : bool := match q with (l, _, _, _) => xline_okb l end.
+Definition g_gr (q : xline * string * list (string * res pyval) * res pyval) : bool :=
+  match q with (l, t, asked, _) => forallb (fun er => stage_same (grx_stage l (fst er) (PStr t)) (snd er)) asked end.
+Definition g_den (q : xline * string * list (string * res pyval) * res pyval) : bool :=
+  match q with (l, t, _, _) =>
+    let m := ParseX86.show_outcome (ParseX86.parse_line t) in
+    String.eqb m "U" || String.eqb m (ParseX86.show_outcome (ParseX86.Parsed (den_xline l))) end.
+Definition g_thm (q : xline * string * list (string * res pyval) * res pyval) : bool :=
+  match q with (l, t, _, _) => same_res (x_parse_line (grx_stage l) (PStr t) (PInt 3%%Z)) (Ok (embx_form l (PStr t) (PInt 3%%Z))) end.
+Definition g_py (q : xline * string * list (string * res pyval) * res pyval) : bool :=
+  match q with (l, t, _, r) => same_res (Ok (embx_form l (PStr t) (PInt 3%%Z))) r end.
+Definition g_mod (q : xline * string * list (string * res pyval) * res pyval) : bool :=
+  match q with (l, t, _, _) => negb (String.eqb (ParseX86.show_outcome (ParseX86.parse_line t)) "U") end.
+Definition failing (g : _ -> bool) : string :=
+  idxs (fun i => match nth_error cases i with Some q => negb (g q) | None => true end) (length cases).
+Eval vm_compute in (failing g_ok ++ "|" ++ failing g_gr ++ "|" ++ failing g_den ++ "|" ++ failing g_thm ++ "|" ++ failing g_py ++ "|" ++ failing g_mod).
+""" % rows))
+    res = ctx.coq_eval_many(shards, timeout=900)
+    names = ["line is in the language xline_okb", "grammar stage: grx_stage = REAL pyparsing result for every element parse_line consults",
+             "den_xline = the hand model's parse_line of the text (where the model is not Unmodelled)",
+             "theorem instance: translated parse_line (grx_stage) = embx_form",
+             "embx_form = the object the Python parse_line returns (every instance attribute)"]
+    fails = {n: [] for n in names}
+    unmod = 0
+    broken = []
+    for k, (ok, out) in enumerate(res):
+        if not ok or not out:
+            broken.append((out or ["no output"])[0][-1500:])
+            continue
+        parts = out[0].split("|")
+        for nm, part in zip(names, parts):
+            fails[nm] += [cases[k * per + int(x)] for x in part.split(",") if x]
+        unmod += len([x for x in parts[5].split(",") if x])
+    ctx.obligation("x86 line shards evaluate (%d shards)" % len(shards), "correspondence", not broken, "\n".join(broken[:2]))
+    for nm in names:
+        f = fails[nm]
+        ctx.obligation("x86 post-processing, %d lines (%d of other forms skipped; hand model Unmodelled on %d): %s" % (len(cases), skipped, unmod, nm),
+                       "correspondence", not f, "" if not f else "%d cases, first: line=%r xline=%s" % (len(f), f[0][4], f[0][0][:300]))
+    ctx.coverage.setdefault("post_translator", {})["x86 lines (trees)"] = {"lines": len(cases), "skipped_other_forms": skipped, "model_unmodelled": unmod,
+                                                                            **{n[:24]: len(f) for n, f in fails.items()}}
+    return fails
+
+
 # ------------------------------------------------------------------ the registration calls of checks/c10.py and checks/c09.py
 def search_failing_line(ctx, prop_key, p, lines, oracle):
     """an obligation of the tie broke: look for a concrete line on which the implementation violates the model-free oracle"""
@@ -604,12 +833,17 @@ def run_a64(ctx, p, cases, extra_lines=()):
     return tie
 
 
-def run_x86(ctx, p, lines):
+def run_x86(ctx, p, lines, wf=()):
     """checks/c09.py: lines = generated x86 lines of the correspondence stream"""
     ctx.trusted += ["tools/gen_parsepost.py + tools/py2coq_dyn.py, coq/Model/PyDyn.v + PyPost.v: translator and semantics of the Python subset for the "
                     "post-processing stage of parser_x86att.py (cross-checked against the Python functions on the real pyparsing dictionaries every run)"]
+    ctx.assumptions += ["C09post_operand_partial: registers, immediates, identifiers, memory references d(b,i,s){k}, absolute addresses; segment "
+                        "overrides, `*` forms, relocations, numeric labels are translated and tied by evaluation only; C09post_line_partial: lines whose "
+                        "operands are of those forms; comment words, directive parameters / further keys as the grammar delivered them (free)"]
     tie = Tie(ctx, "x86").run_T()
     tie.run_translator_stream(p, list(lines)[:ctx.n(700, 8000)], "x86 lines")
+    x86_operand_stream(tie, p, list(wf)[:ctx.n(1200, 20000)])
+    x86_line_stream(tie, p, list(lines)[:ctx.n(900, 12000)], list(wf))
     usable = [l for l in lines if l.strip() != "" and "\n" not in l]
     good = []
     for l in usable[:400]:
